@@ -24,12 +24,15 @@ def closed(s):
             '%s.send_ready.notified >= 1 and %s.recv_ready.notified >= 1' % (s, s, s, s, s, s))
 
 
-for cls in ('RawAccessPoint', 'LogicalDataLink', 'DataLinkConnection'):
-    contract(L + 'ServiceAccessPoint.shutdown', 'C09',
+for cls, _prop in (('RawAccessPoint', 'C09'), ('LogicalDataLink', 'C09'), ('DataLinkConnection', 'C09'),
+                   # C07 ("or block forever"): the same contract for the connection sockets - a service thread
+                   # waiting for the send window or for acknowledgements is woken when the link ends
+                   ('DataLinkConnection', 'C07')):
+    contract(L + 'ServiceAccessPoint.shutdown', _prop,
              dict(self=Obj(L + 'ServiceAccessPoint', addr=SAP(), llc=Obj(L + 'LogicalLinkController', lock=Lock()),
                            sock_list=Fixed([Ref('s0'), Ref('s1')], 'deque'), send_list=ListOf(Any(), kind='deque')),
                   s0=sock(cls), s1=sock(cls)),
-             name='C09/sap.shutdown[%s]' % cls,
+             name='%s/sap.shutdown[%s]' % (_prop, cls),
              ensures=[('O-term-state.list', 'len(self.sock_list) == 0'),
                       ('O-term-state.s0', closed('s0')), ('O-term-state.s1', closed('s1'))] +
                      ([('O-term-state.dlc', 's0.acks_ready.notified >= 1 and s0.send_token.notified >= 1')]
